@@ -146,6 +146,10 @@ async fn run(input: RunInput, mode: Mode) -> RunOutput {
     let mut cfg = base_config(idle_ms, ka_ms);
     cfg.connect_timeout_ms = Some(connect_timeout_ms);
     cfg.shutdown_idle_timeout_ms = Some(500);
+    // a frame limit on every node and, now and then, a request above it: that RPC fails (C15) and
+    // nothing about the connection, the listing or the events may change because of it
+    let frame_limit = w.flag("frame_limit", 0.25).then(|| w.param("max_frame_size", 2_000, 20_000) as usize);
+    cfg.max_frame_size = frame_limit;
     let mut link = LinkCfg::clean(200, lat_max);
     if faulty {
         link.drop = w.param("drop_pct", 0, 10) as f64 / 100.0;
@@ -418,8 +422,27 @@ async fn run(input: RunInput, mode: Mode) -> RunOutput {
                     stale.push((i, j, h, w.now_ns()));
                 }
             }
-            let rr = rpc_bounded(&slots[i].node, ids[j], Request::new(Bytes::from_static(b"ping")), Duration::from_secs(60)).await;
-            desc = format!("rpc n{i}>n{j}:{}", if rr.is_ok() { "ok" } else { "err" });
+            let oversized = frame_limit.filter(|_| r_hangup.gen_bool(0.4));
+            let body = match oversized {
+                Some(l) => Bytes::from(vec![7u8; l + 1 + (l / 3)]),
+                None => Bytes::from_static(b"ping"),
+            };
+            let listed_before = slots[i].node.net.peers().contains(&ids[j]);
+            let rr = rpc_bounded(&slots[i].node, ids[j], Request::new(body), Duration::from_secs(60)).await;
+            desc = format!("rpc n{i}>n{j}{}:{}", if oversized.is_some() { "(oversized)" } else { "" }, if rr.is_ok() { "ok" } else { "err" });
+            if oversized.is_some() {
+                w.probe("oversized-request-in-a-history");
+                w.check(rr.is_err(), "over-limit-but-delivered", "history", || format!("a request above the frame limit {frame_limit:?} succeeded"));
+                if listed_before && !faulty && !crashed && ka_effective.is_some() && mode == Mode::C04 {
+                    // confined to that RPC: the peer stays listed and answers the next one
+                    sleep_ms(2 * lat_max / 1000 + 20).await;
+                    let still = slots[i].node.net.peers().contains(&ids[j]);
+                    let next = probe(&w, &slots[i].node, ids[j], 8, Duration::from_secs(5)).await;
+                    if !still || next.is_err() {
+                        w.violate("oversized-request-disturbed-the-connection", "history", format!("after a refused oversized request n{i}>n{j}: still listed = {still}, next rpc = {next:?}"));
+                    }
+                }
+            }
             if let Err(e) = &rr {
                 // no timing verdict while faults still flow (a 70 % loss burst legitimately keeps a
                 // connection alive and an RPC pending for a long time)
